@@ -218,6 +218,12 @@ func c17Property(t *rapid.T) {
 		{"RuleManager", constant.RuleManagerContractAddr, "RegisterRule", []*pb.Arg{pb.String("chainB"), pb.String("0x00000000000000000000000000000000000000a2"), pb.String("http://r")}, "admin-of-the-target-appchain"},
 		{"RuleManager", constant.RuleManagerContractAddr, "UpdateMasterRule", []*pb.Arg{pb.String("chainB"), pb.String("0x00000000000000000000000000000000000000a2"), pb.String("r")}, "admin-of-the-target-appchain"},
 		{"RuleManager", constant.RuleManagerContractAddr, "LogoutRule", []*pb.Arg{pb.String("chainB"), pb.String("0x00000000000000000000000000000000000000a2")}, "admin-of-the-target-appchain"},
+		// chainD's admin set was reduced by an approved update; none of the sweep's roles is an admin of chainD
+		{"RuleManager", constant.RuleManagerContractAddr, "UpdateMasterRule", []*pb.Arg{pb.String("chainD"), pb.String(tpl.Data["chainD-rule"]), pb.String("r")}, ""},
+		{"RuleManager", constant.RuleManagerContractAddr, "LogoutRule", []*pb.Arg{pb.String("chainD"), pb.String(tpl.Data["chainD-rule"])}, ""},
+		{"RuleManager", constant.RuleManagerContractAddr, "RegisterRule", []*pb.Arg{pb.String("chainD"), pb.String("0x00000000000000000000000000000000000000a1"), pb.String("http://r")}, ""},
+		{"AppchainManager", constant.AppchainMgrContractAddr, "UpdateAppchain", []*pb.Arg{pb.String("chainD"), pb.String("name-chainD"), pb.String("taken over"), pb.Bytes(nil), pb.String(sim.Outsiders[0].Addr.String()), pb.String("r")}, ""},
+		{"ServiceManager", constant.ServiceMgrContractAddr, "RegisterService", []*pb.Arg{pb.String("chainD"), pb.String("wfsvc"), pb.String("svc-chainD-wf"), pb.String("CallContract"), pb.String("intro"), pb.Uint64(1), pb.String(""), pb.String("details"), pb.String("r")}, ""},
 		{"NodeManager", constant.NodeManagerContractAddr, "UpdateNode", []*pb.Arg{pb.String(nodeAddr), pb.String("node-renamed"), pb.String("chainA"), pb.String("r")}, "governance-admin"},
 		{"NodeManager", constant.NodeManagerContractAddr, "LogoutNode", []*pb.Arg{pb.String(nodeAddr), pb.String("r")}, "governance-admin"},
 		{"RoleManager", constant.RoleContractAddr, "FreezeRole", []*pb.Arg{pb.String(w.N.Admins[1].Addr.String()), pb.String("r")}, "governance-admin"},
